@@ -12,7 +12,8 @@ Definition handlers : list (str * (list str -> str)) :=
     ([115; 116; 98], run_stb);     (* "stb" *)
     ([102; 115; 116], run_fst);    (* "fst" *)
     ([102; 115; 111], run_fso);    (* "fso" *)
-    ([104; 105; 115; 116], run_hist) (* "hist" *)
+    ([104; 105; 115; 116], run_hist); (* "hist" *)
+    ([102; 104; 105; 115; 116], run_fhist) (* "fhist" *)
   ].
 
 Fixpoint dispatch (hs : list (str * (list str -> str))) (cmd : str) (args : list str) : str :=
